@@ -25,13 +25,30 @@ pub fn drain_log() -> Vec<HookCall> {
 pub fn clear_log() {
     LOG.with(|l| l.borrow_mut().clear())
 }
+thread_local! {
+    static NESTED: std::cell::Cell<Option<fn()>> = std::cell::Cell::new(None);
+}
+/// While set, every user function runs `f` once before it answers: the harness uses it to run ANOTHER, complete parse
+/// in the middle of the parse in progress (a user function that validates its text with a second parser). A pure
+/// function of nothing - the answer of the hook is unchanged.
+pub fn set_nested(f: Option<fn()>) {
+    NESTED.with(|n| n.set(f));
+}
+
 fn log(name: &str, arg: String, ty: &str) {
     LOG.with(|l| {
         let mut l = l.borrow_mut();
         if l.len() < 100_000 {
             l.push(HookCall { name: name.to_string(), arg, ty: ty.to_string() })
         }
-    })
+    });
+    if let Some(f) = NESTED.with(|n| n.take()) {
+        // not re-entrant: the nested parse runs with the switch off; its own hook calls are removed from the log
+        let keep = LOG.with(|l| l.borrow().len());
+        f();
+        LOG.with(|l| l.borrow_mut().truncate(keep));
+        NESTED.with(|n| n.set(Some(f)));
+    }
 }
 
 /// user context type for the "with user context" configuration
